@@ -14,6 +14,7 @@ from ..describe import EPOCH, MS
 
 UTC = datetime.timezone.utc
 US = datetime.timedelta(microseconds=1)
+MS = datetime.timedelta(milliseconds=1)
 TD = datetime.timedelta
 
 INT_RANGES = {
@@ -61,13 +62,17 @@ def member_td(v: object, rng_: tuple) -> bool:
     return isinstance(v, datetime.timedelta) and rng_[0] <= v <= rng_[1]
 
 
-def member_tzaware(v: object) -> bool:
+def member_tzaware(v: object) -> bool | None:
     if not isinstance(v, datetime.datetime):
         return False
     if v.tzinfo is None or v.tzinfo.utcoffset(v) is None:
         return False
     if v.microsecond % 1000:
-        return False
+        # (a wall clock that is off by exactly the zone's sub-millisecond offset denotes a whole-millisecond instant: the documented
+        # precision speaks of the microsecond component, so neither answer is demanded; only consistency is checked)
+        return None if (v - EPOCH) % MS == TD(0) and (v - EPOCH) >= TD(0) else False
+    if (v - EPOCH) % MS:
+        return False  # whole-millisecond wall clock in a zone with a sub-millisecond UTC offset: the instant is not a whole millisecond
     return (v - EPOCH) >= TD(0)
 
 
@@ -276,6 +281,9 @@ def durations(c: Ctx, rng, nrand: int, deterministic: bool) -> None:  # noqa: AN
 
 def timestamps(c: Ctx, rng, nrand: int, deterministic: bool) -> None:  # noqa: ANN001
     tzs = [UTC, datetime.timezone(TD(hours=14)), datetime.timezone(TD(hours=-14) + TD(minutes=1)), datetime.timezone(TD(hours=5, minutes=30)), datetime.timezone(TD(minutes=-1))]
+    # UTC offsets have microsecond resolution since Python 3.7: zones whose offset is not a whole number of milliseconds (and one that is)
+    tzs += [datetime.timezone(TD(microseconds=500)), datetime.timezone(TD(hours=1, microseconds=1)), datetime.timezone(-TD(microseconds=999)),
+            datetime.timezone(TD(milliseconds=1)), datetime.timezone(TD(hours=-3, milliseconds=-7))]
     try:
         import zoneinfo
 
